@@ -63,21 +63,30 @@ def plan_seeds(n, thorough):
 
 def run(ctx):
     rng = ctx.rng
-    n = ctx.n(360, 3000)
+    n = ctx.n(300, 2600)
     histories = [G.history_c09(rng) for _ in range(n)]
     # regression corpus first: the three defects this property exhibited on the pinned tree
     histories = CORPUS + histories
     # pristine twins: the last write of a history, alone in a fresh process ("after other sets were written" /
     # "in another process" must give the same bytes as that)
-    twins = {}
+    twins = []           # (history index, twin index)
     for hi in range(len(histories)):
-        ws = [op for op in histories[hi] if op["op"] == "write"]
-        if ws and any(ws[0].get(k) != ws[-1].get(k) for k in ("kind", "set", "wopts", "kw")):
-            # the last write's (writer, options, set) was first written after something else had been written
-            t = G.pristine_twin(histories[hi])
-            if t is not None:
-                twins[hi] = len(histories)
+        h = histories[hi]
+        ws = [k for k, op in enumerate(h) if op["op"] == "write"]
+        seen_keys, made = set(), 0
+        for pos, k in reversed(list(enumerate(ws))):
+            op = h[k]
+            key = json.dumps([op["kind"], op.get("wopts"), op.get("kw"), op["set"]], sort_keys=True)
+            if pos == 0 or key in seen_keys or made >= (2 if len(h) <= 5 else 1):
+                continue
+            seen_keys.add(key)
+            # this (writer, options, set) is written after something else was written in the process
+            t = G.pristine_twin(h, pos)
+            if t is not None and not any(json.dumps([q["kind"], q.get("wopts"), q.get("kw"), q["set"]], sort_keys=True) == key
+                                         for q in h[:ws[0] + 1] if q["op"] == "write"):
+                twins.append((hi, len(histories)))
                 histories.append(t)
+                made += 1
     n = len(histories)
     r = C.check_batch(histories, ctx.repo, plan_seeds(n, ctx.thorough), "C09", ("write",))
     res = {"evaluations": 0, "nontrivial": set(), "violations": [], "disagreements": [], "streams": 3,
@@ -85,6 +94,7 @@ def run(ctx):
     dist = res["distribution"]
     kinds, errs, reuse, nops = {}, {}, 0, 0
     hi_of = {id(h): k for k, h in enumerate(histories)}
+    twinned = set(hi for hi, _ in twins)
     for h, obs in zip(histories, r["results"]):
         res["evaluations"] += 1
         seen_w = set()
@@ -100,15 +110,15 @@ def run(ctx):
                 seen_w.add(op["w"])
         if reused:
             reuse += 1
-        if reused or hi_of[id(h)] in twins:
+        if reused or hi_of[id(h)] in twinned:
             res["nontrivial"].add(json.dumps(h, sort_keys=True))
     dist.update({"histories": n, "operations": nops, "writes_by_writer": kinds, "writes_that_raised": errs,
                  "histories_with_a_reused_writer_object": reuse,
                  "hash_seeds": {str(s): len(v) for s, v in plan_seeds(n, ctx.thorough).items()},
                  "pristine_reads": len(r["pristine"])})
-    pairs = [(histories[ti], r["results"][ti], histories[hi], r["results"][hi]) for hi, ti in twins.items()]
+    pairs = [(histories[ti], r["results"][ti], histories[hi], r["results"][hi]) for hi, ti in twins]
     dist["pristine_twin_pairs"] = len(pairs)
-    for (hi, ti), verdict in zip(twins.items(), C.evaluate_pairs(pairs, 901)):
+    for (hi, ti), verdict in zip(twins, C.evaluate_pairs(pairs, 901)):
         for (i, clause) in verdict:
             if clause == 2:
                 r["violations"].append((hi, i, 2, {"twin": histories[ti]}))
